@@ -176,12 +176,12 @@ def normalise(case):
     if c.get('hcl') == 'u':
         pass      # only used by the recorded finding's witness (handler length assumes UTF-8)
     elif c.get('hcl'):
-        ok = b in ALLBYTES or (b in ('text', 'latin', 'tlist') and 'encode' in tools and not streaming
+        ok = b in ALLBYTES or b in ('static', 'estatic') or (b in ('text', 'latin', 'tlist') and 'encode' in tools and not streaming
                                and c.get('ct') in ('html', 'plain'))
         if not ok:
             c['hcl'] = 0
     if b in ('static', 'estatic'):
-        c['hcl'] = 0
+        c['hcl'] = 1 if c.get('hcl') else 0
         if c['st'][0] not in '-s':
             c['st'] = '-'
     else:
@@ -211,7 +211,7 @@ def model_line(case):
         im = 'match' if r['im'].startswith('"') else r['im']
         reqs.append(','.join([r['m'], r['ae'], inm, im, r['ac'], rg]))
     hcl = 'N'
-    if case['hcl'] and not case['body'].startswith('X:'):
+    if case['hcl']:
         hcl = str(R.own_length(case, R.parse_body(case['body'])[1]))
     return ' '.join([tools, page, case['ct'], hcl, str(int(bool(case['hstream']))),
                      case['st'], body, case.get('hook', '-'), ';'.join(reqs)])
@@ -511,6 +511,13 @@ def systematic_quick():
                 for m1, m2 in (('GET', 'GET'), ('HEAD', 'GET'), ('GET', 'HEAD'), ('POST', 'GET'), ('GET', 'POST')):
                     for ae in ('-', 'gzip'):
                         out.append(mk(b, st, tools, [req(m1, ae=ae), req(m2, ae=ae)], page='short'))
+    # a cached copy answered with 304 / 412 (conditions evaluated against the stored entity tag)
+    for tools in (['caching', 'etags'], ['caching', 'etags', 'gzip'], ['caching', 'etags', 'gzip', 'encode', 'stream']):
+        for b in ('bytes', 'gen', 'text', 'static'):
+            for cond in ('star', 'match', 'other'):
+                for m in METHODS:
+                    out.append(mk(b, '-', tools, [req('GET', ae='gzip'), req(m, ae='gzip', inm=cond)]))
+                    out.append(mk(b, '-', tools, [req('GET', ae='gzip'), req(m, ae='gzip', im=cond)]))
     # conditional requests against automatic entity tags
     for b in ('bytes', 'gen', 'static', 'text'):
         for m in METHODS:
@@ -521,7 +528,8 @@ def systematic_quick():
     for rg in RANGES:
         for tools in ([], ['gzip'], ['encode'], ['etags'], ['stream'], ['caching']):
             for m in ('GET', 'HEAD'):
-                out.append(mk('static', '-', tools, [req(m, ae='gzip', rng=rg)]))
+                for hcl in (0, 1):
+                    out.append(mk('static', '-', tools, [req(m, ae='gzip', rng=rg)], hcl=hcl))
     # a user hook raising / rewriting / re-statusing at every position of the before_finalize chain
     for prio in HOOK_PRIOS:
         for act in HOOK_ACTS:
